@@ -54,3 +54,31 @@ func VerifNodeRace() {
 	}
 	rt.Assert(int(cur.CurrentConcurrency()) == n, "the in-flight count of the resource counts every concurrent first entry")
 }
+
+// VerifGaugeRace: entries of one resource enter and exit at once (context switches at every atomic
+// access of the in-flight gauge): afterwards the gauge is exactly the number in flight — no increment
+// or decrement is lost, and it is zero when nothing is in flight.
+func VerifGaugeRace() {
+	rt.SetClockMs(2000000000000)
+	n := rt.Param("N")
+	node := GetOrCreateResourceNode("G", base.ResTypeCommon)
+	want := int32(0)
+	enters := make([]bool, n)
+	for i := 0; i < n; i++ {
+		enters[i] = rt.Bool("enters")
+		if !enters[i] {
+			node.IncreaseConcurrency() // an entry already in flight that will exit
+		}
+	}
+	for i := 0; i < n; i++ {
+		if enters[i] {
+			want++
+			rt.Spawn(func() { node.IncreaseConcurrency() })
+		} else {
+			rt.Spawn(func() { node.DecreaseConcurrency() })
+		}
+	}
+	rt.Join()
+	rt.Reach("gaugerace.joined")
+	rt.Assert(node.CurrentConcurrency() == want, "the in-flight gauge equals the entries in flight after concurrent entries and exits (zero when none is)")
+}
